@@ -345,7 +345,10 @@ def main(argv=None):
             errors.append("bounded stand-in crashed: " + "".join(traceback.format_exception(type(e), e, e.__traceback__))[-2000:])
             bounded = None
         if bounded:
+            kb = [d["input"] for d in load_known(prop) if d.get("bounded")]
             for v in bounded.get("violations", []):
+                if v.get("input") in kb:
+                    continue
                 violations.append({"obligation": "%s/bounded/%s" % (prop, v["name"]), "ci": None, "gi": None,
                                    "model": v.get("input"), "native": v, "bounded": True})
 
@@ -411,6 +414,16 @@ def main(argv=None):
     # ---- known findings: confirm they still reproduce
     known_lines = []
     for d in load_known(prop):
+        if d.get("bounded") and hasattr(mod, "replay_bounded"):
+            try:
+                ok, detail = mod.replay_bounded(d["input"])
+            except Exception as e:
+                ok, detail = None, repr(e)
+            if ok is False:
+                known_lines.append("KNOWN-FINDING: property=%s id=%s %s | input %s" % (prop, d["id"], d["what"], json.dumps(d["input"])))
+            else:
+                known_lines.append("NOTE: known finding %s no longer reproduces on its input (%s)" % (d["id"], detail))
+            continue
         for ct in contracts:
             if ct.label != d["contract"]:
                 continue
